@@ -2,7 +2,9 @@ n% = 3
 DIM d(1 TO n%) AS LONG
 DIM f(1 TO 3) AS LONG
 FOR i% = 1 TO n%
+  PRINT i%
   d(i%) = i% * 100
+  PRINT i%
   f(i%) = d(i%) + 1
 NEXT
 total f(), n%
